@@ -27,13 +27,34 @@ def rule_eol(model):
     fi = model.func('DT_String', 'String.skip_eol')
     pat = None
     pname = None
-    for p in fi.params():
-        d = model.param_default(fi, p)
+    def compiled(d):
+        # re.compile(<const>) directly, or a module-level name bound to it
+        if isinstance(d, ast.Name):
+            for g in fi.module.globals.get(d.id, []):
+                c = compiled(g)
+                if c is not None:
+                    return c
+            return None
         if d is not None and isinstance(d, ast.Call) and \
-                norm(d.func) == 're.compile':
+                norm(d.func) == 're.compile' and d.args:
             ok, v = model.fold(d.args[0], None, fi.module)
             if ok:
-                pat, pname = v, p
+                return v
+        return None
+    for p in fi.params():
+        v = compiled(model.param_default(fi, p))
+        if v is not None:
+            pat, pname = v, p
+    if pat is None:
+        # the pattern object used in the body is a module-level constant
+        for n in own_nodes(fi.node):
+            if isinstance(n, ast.Call) and \
+                    isinstance(n.func, ast.Attribute) and \
+                    isinstance(n.func.value, ast.Name) and \
+                    n.func.attr in ('match', 'search', 'fullmatch'):
+                v = compiled(n.func.value)
+                if v is not None:
+                    pat, pname = v, n.func.value.id
     if pat is None:
         raise AnalysisError('skip_eol: line-end pattern not found')
     inc, wit = regexa.included(pat, REFERENCE)
@@ -174,16 +195,55 @@ def _is_end_of_match(model, fi, e):
             tag = p.args[0].id
     if loc is None or tag is None:
         return False
-    mo_loc = mo_tag = None
-    for d in model.local_defs(fi, loc):
-        if isinstance(d, ast.Call) and isinstance(d.func, ast.Attribute) and \
-                d.func.attr == 'start':
-            mo_loc = norm(d.func.value)
-    for d in model.local_defs(fi, tag):
-        if isinstance(d, tuple) and d[0] == 'unpack' and \
-                isinstance(d[1], ast.Call) and d[1].args:
-            mo_tag = norm(d[1].args[0])
+    mo_loc = _match_of(model, fi, loc, 'start')
+    mo_tag = _match_of(model, fi, tag, 'tag')
     return mo_loc is not None and mo_loc == mo_tag
+
+
+def _match_of(model, fi, name, what, depth=0):
+    """Identity of the match object a local stems from: `x = m.start(0)`
+    (what='start') or `x, ... = self._parseTag(m, ...)` (what='tag'); also
+    through a helper method that returns a tuple of such locals (the
+    identity then names the helper call, so that two results of one call
+    that stem from one match agree)."""
+    for d in model.local_defs(fi, name):
+        if what == 'start' and isinstance(d, ast.Call) and \
+                isinstance(d.func, ast.Attribute) and d.func.attr == 'start':
+            return norm(d.func.value)
+        if isinstance(d, tuple) and d[0] == 'unpack' and \
+                isinstance(d[1], ast.Call) and d[1].args and \
+                isinstance(d[1].func, ast.Attribute):
+            call = d[1]
+            if 'parseTag' in call.func.attr:
+                if what == 'tag':
+                    return norm(call.args[0])
+                continue
+            if norm(call.func.value) != 'self' or fi.cls is None or \
+                    depth > 1:
+                continue
+            h = model.lookup_method(fi.cls, call.func.attr)
+            if h is None:
+                continue
+            # position of `name` in the unpacking target
+            pos = None
+            for st in own_nodes(fi.node):
+                if isinstance(st, ast.Assign) and st.value is call and \
+                        isinstance(st.targets[0], ast.Tuple):
+                    for i, te in enumerate(st.targets[0].elts):
+                        if isinstance(te, ast.Name) and te.id == name:
+                            pos = i
+            rets = [x for x in own_nodes(h.node) if isinstance(x, ast.Return)]
+            if pos is None or not rets or not all(
+                    isinstance(x.value, ast.Tuple) and
+                    pos < len(x.value.elts) and
+                    isinstance(x.value.elts[pos], ast.Name) for x in rets):
+                continue
+            ids = {_match_of(model, h, x.value.elts[pos].id, what, depth + 1)
+                   for x in rets}
+            if len(ids) == 1 and None not in ids:
+                return f'{h.name}@{getattr(call, "lineno", 0)}:' + \
+                    next(iter(ids))
+    return None
 
 
 def _passes_through(model, hfi):
@@ -366,9 +426,9 @@ def prefix_tests(model, fi):
     """(literal, node, width_ok) for every test of a tag prefix in the
     scanner: `text[a:a+k] == LIT` or `text.startswith(LIT, a)`."""
     out = []
-    for c in own_nodes(fi.node):
+    for c in model.closure_nodes(fi):
         if isinstance(c, ast.Compare) and len(c.ops) == 1 and \
-                isinstance(c.ops[0], ast.Eq) and \
+                isinstance(c.ops[0], (ast.Eq, ast.NotEq)) and \
                 isinstance(c.left, ast.Subscript) and \
                 isinstance(c.left.slice, ast.Slice) and \
                 isinstance(c.comparators[0], ast.Constant) and \
